@@ -434,9 +434,18 @@ def f_float_relres_above_one(case, obs, f):
                     for x, y in _pairs(obs['xa'], obs['xb'])))
 
 
+def f_float_relres_up_to_one(case, obs, f):
+    # proposed (findings/C03.json, not yet in known_findings.json): same mechanism as above for 0.5 < relres <= 1
+    # (relres == 1: a tiny positive minimum is absorbed by the rounding of min - |x|; relres just below 1: one ulp)
+    return (case['kind'] == 'compat' and f['class'] == 'compat-unsound'
+            and any(x['t'] in ('float', 'int', 'scaled') and y['t'] == 'float' and 0.5 < G.dec_float(y['rel']) <= 1
+                    for x, y in _pairs(obs['xa'], obs['xb'])))
+
+
 FINDING_CLASSIFIERS = {
     'struct-optional-into-mandatory': f_struct_optional_into_mandatory,
     'float-target-relres-above-one': f_float_relres_above_one,
+    'float-target-relres-up-to-one': f_float_relres_up_to_one,
 }
 
 
